@@ -15,6 +15,7 @@ package main
 
 import (
 	"bytes"
+	"encoding/json"
 	"flag"
 	"fmt"
 	"go/ast"
@@ -29,7 +30,7 @@ import (
 )
 
 type item struct {
-	kind string // "intconsts" | "inttable" | "strconsts" | "func" | "regexlist"
+	kind string // "intconst" | "inttable" | "strconst" | "strlist" | "regex" | "func"
 	file string // path relative to repo
 	name string // Go identifier
 	coq  string // Coq identifier
@@ -38,6 +39,46 @@ type item struct {
 type unit struct {
 	out   string // output file base name (module name)
 	items []item
+}
+
+// JSON form of a unit: translator/units/<Name>.json
+//   {"out": "Name", "items": [{"kind": "...", "file": "go/...", "name": "goIdent", "coq": "coq_ident"}, ...]}
+type jItem struct {
+	Kind string `json:"kind"`
+	File string `json:"file"`
+	Name string `json:"name"`
+	Coq  string `json:"coq"`
+}
+type jUnit struct {
+	Out   string  `json:"out"`
+	Items []jItem `json:"items"`
+}
+
+func loadUnits(dir string) ([]unit, error) {
+	var out []unit
+	ents, err := os.ReadDir(dir)
+	if err != nil {
+		return nil, nil
+	}
+	for _, e := range ents {
+		if !strings.HasSuffix(e.Name(), ".json") {
+			continue
+		}
+		b, err := os.ReadFile(filepath.Join(dir, e.Name()))
+		if err != nil {
+			return nil, err
+		}
+		var ju jUnit
+		if err := json.Unmarshal(b, &ju); err != nil {
+			return nil, fmt.Errorf("%s: %v", e.Name(), err)
+		}
+		u := unit{out: ju.Out}
+		for _, it := range ju.Items {
+			u.items = append(u.items, item{kind: it.Kind, file: it.File, name: it.Name, coq: it.Coq})
+		}
+		out = append(out, u)
+	}
+	return out, nil
 }
 
 var units = []unit{
@@ -557,6 +598,7 @@ func main() {
 	repo := flag.String("repo", "/repo", "repository root")
 	out := flag.String("out", "/verif/coq/theories/Gen", "output directory")
 	only := flag.String("only", "", "comma-separated unit names")
+	unitsDir := flag.String("units", "/verif/translator/units", "directory of unit definitions (*.json)")
 	flag.Parse()
 	want := map[string]bool{}
 	for _, n := range strings.Split(*only, ",") {
@@ -569,7 +611,12 @@ func main() {
 		os.Exit(2)
 	}
 	us := append([]unit{}, units...)
-	us = append(us, extraUnits()...)
+	ju, err := loadUnits(*unitsDir)
+	if err != nil {
+		fmt.Fprintln(os.Stderr, "units:", err)
+		os.Exit(2)
+	}
+	us = append(us, ju...)
 	sort.Slice(us, func(i, j int) bool { return us[i].out < us[j].out })
 	fail := 0
 	for _, u := range us {
